@@ -108,7 +108,7 @@ FIRST = {
  "C11_4": "missed at first; caught after C11.wp_remove was added", "C11_5": "caught by the existing unit (C11.disable_all)", "C11_6": "missed at first; caught after C11.attach_template was added",
  "C12_4": "caught by the existing unit (C12.wire)", "C12_5": "missed at first; caught after C12.stop_tail was added", "C12_6": "missed at first; caught after C12.launch was added",
  "C13_4": "missed at first (the loop body of the handler was outlined whole); caught after C13.record_addresses was added -- the same contract on the source-line handler failed on the unchanged tree: genuine defect, fixed in bc7cedb", "C13_5": "caught by the existing unit (C13.hit_count)", "C13_6": "caught by the existing unit (C13.condition)",
- "C15_4": "missed at first; caught after C15.reg_focus was added", "C15_5": "see failing obligation (Kani unit C15.char_bytes added for it)", "C15_6": "missed at first; caught after C15.set_variable_cache was added",
+ "C15_4": "missed at first; caught after C15.reg_focus was added", "C15_5": "missed at first; caught after the Kani unit C15.char_bytes was added", "C15_6": "missed at first; caught after C15.set_variable_cache was added",
  "C18_4": "missed at first; caught after C18.reload_plan was added", "C18_5": "missed at first (only the loop body was under contract); caught after C18.enable_all_frame was added", "C18_6": "missed at first; caught after relocation_addr was put under contract (C18.try_into_brkpt)",
  "C16_3": "missed at first; caught after the Kani unit C16.formatter_1_87 was added", "C19_3": "missed at first; caught after C19.pieces was added", "C05_2": "missed at first; caught after C05.cfi_lookup was added",
 }
